@@ -54,13 +54,14 @@ Record cstate := {
   redirectable : bool;
   rq_method : N;            (* requester.method *)
   rs_method : N;            (* respondent.method *)
+  qlog : list (N * qargs);  (* per queued tag: the qargs its request dict got in Client.request (append only) *)
   rq_target : target;       (* requester.path / .qargs *)
   rtargets : list target }. (* the requests of the entries in .redirects *)
 
 Definition init_m (sec rd : bool) (m : N) : cstate :=
   {| queue := []; waited := false; latest := None; responses := []; redirects := [];
      conn := 0; host := 0; https := sec; cut := false; sent := false; wire := []; redirectable := rd;
-     rq_method := m; rs_method := m; rq_target := (false, 0, []); rtargets := [] |}.
+     rq_method := m; rs_method := m; qlog := []; rq_target := (false, 0, []); rtargets := [] |}.
 Definition init (sec rd : bool) : cstate := init_m sec rd 0.
 
 Definition HEAD : N := 1.
@@ -72,18 +73,34 @@ Definition is_redirect (st : N) : bool :=
   (st =? 300) || (st =? 301) || (st =? 302) || (st =? 303) || (st =? 307).
 
 (* Client.request *)
-Definition enq (s : cstate) (t : N) : cstate :=
+(* httping.updateQargsQuery: the path's query arguments are written into the dict (existing keys keep
+   their place, new keys are appended) *)
+Fixpoint qset (q : qargs) (k v : N) : qargs :=
+  match q with
+  | [] => [(k, v)]
+  | (k', v') :: r => if k' =? k then (k, v) :: r else (k', v') :: qset r k v
+  end.
+Definition merge (base upd : qargs) : qargs := fold_left (fun acc kv => qset acc (fst kv) (snd kv)) upd base.
+
+(* Client.request: qargs given, or a COPY of the requester's current qargs *)
+Definition enq (qof : N -> option qargs) (s : cstate) (t : N) : cstate :=
   {| queue := queue s ++ [t]; waited := waited s; latest := latest s; responses := responses s;
      redirects := redirects s; conn := conn s; host := host s; https := https s; cut := cut s;
      sent := sent s; wire := wire s; redirectable := redirectable s;
        rq_method := rq_method s; rs_method := rs_method s;
-       rq_target := rq_target s; rtargets := rtargets s |}.
+       qlog := qlog s ++ [(t, match qof t with Some q => q | None => snd (rq_target s) end)]; rq_target := rq_target s; rtargets := rtargets s |}.
 
 Definition on_wire (s : cstate) (it : witem) (q : qargs) : wentry :=
   {| w_conn := conn s; w_https := https s; w_host := host s; w_item := it; w_q := q |}.
 
+Fixpoint qlookup (l : list (N * qargs)) (t : N) : qargs :=
+  match l with [] => [] | (k, q) :: r => if k =? t then q else qlookup r t end.
+(* Requester.build: the request's qargs with the query of its path merged in *)
+Definition sent_q (qof : N -> option qargs) (pq : N -> qargs) (s : cstate) (t : N) : qargs :=
+  merge (qlookup (qlog s) t) (pq t).
+
 (* serviceRequests + transmit + serviceSends: txbs leaves only while not cut off *)
-Definition pump (mof : N -> N) (qof : N -> qargs) (s : cstate) : cstate :=
+Definition pump (mof : N -> N) (qof : N -> option qargs) (pq : N -> qargs) (s : cstate) : cstate :=
   if waited s then s else
   match queue s with
   | [] => s
@@ -91,10 +108,10 @@ Definition pump (mof : N -> N) (qof : N -> qargs) (s : cstate) : cstate :=
     {| queue := q; waited := true; latest := Some t; responses := responses s;
        redirects := redirects s; conn := conn s; host := host s; https := https s; cut := cut s;
        sent := negb (cut s);
-       wire := if cut s then wire s else wire s ++ [on_wire s (WReq t) (qof t)];
+       wire := if cut s then wire s else wire s ++ [on_wire s (WReq t) (sent_q qof pq s t)];
        redirectable := redirectable s;
        rq_method := mof t; rs_method := mof t;
-       rq_target := (false, t, qof t); rtargets := rtargets s |}
+       qlog := qlog s; rq_target := (false, t, sent_q qof pq s t); rtargets := rtargets s |}
   end.
 
 (* the response entry is appended with the redirect history, .redirects cleared, .waited cleared *)
@@ -106,7 +123,7 @@ Definition deliver (s : cstate) (st : N) (err cut' : bool) : cstate :=
      redirects := []; conn := conn s; host := host s; https := https s; cut := cut';
      sent := false; wire := wire s; redirectable := redirectable s;
        rq_method := rq_method s; rs_method := rs_method s;
-       rq_target := rq_target s; rtargets := [] |}.
+       qlog := qlog s; rq_target := rq_target s; rtargets := [] |}.
 
 (* serviceResponse on a completely parsed reply *)
 Definition complete (s : cstate) (r : reply) : cstate :=
@@ -126,7 +143,7 @@ Definition complete (s : cstate) (r : reply) : cstate :=
            wire := if cut' then wire s else wire s ++ [on_wire s (WRedir (rp_id r)) (l_query l)];
            redirectable := redirectable s;
        rq_method := rq_method s; rs_method := rq_method s;
-           rq_target := (true, rp_id r, l_query l); rtargets := rtargets s ++ [rq_target s] |}
+           qlog := qlog s; rq_target := (true, rp_id r, l_query l); rtargets := rtargets s ++ [rq_target s] |}
       else if https s && negb sec then
         deliver s (rp_status r) true cut'                  (* https -> http refused *)
       else
@@ -138,7 +155,7 @@ Definition complete (s : cstate) (r : reply) : cstate :=
                                  w_item := WRedir (rp_id r); w_q := l_query l |}];
            redirectable := redirectable s;
        rq_method := rq_method s; rs_method := rq_method s;
-           rq_target := (true, rp_id r, l_query l); rtargets := rtargets s ++ [rq_target s] |}
+           qlog := qlog s; rq_target := (true, rp_id r, l_query l); rtargets := rtargets s ++ [rq_target s] |}
     end
   else deliver s (rp_status r) false cut'.
 
@@ -147,19 +164,19 @@ Definition complete (s : cstate) (r : reply) : cstate :=
 Definition readable (s : cstate) (r : reply) : bool :=
   Bool.eqb (no_body (rs_method s) (rp_status r)) (no_body (rq_method s) (rp_status r)).
 
-Definition step (mof : N -> N) (qof : N -> qargs) (s : cstate) (e : event) : cstate :=
+Definition step (mof : N -> N) (qof : N -> option qargs) (pq : N -> qargs) (s : cstate) (e : event) : cstate :=
   match e with
-  | Enq t => enq s t
+  | Enq t => enq qof s t
   | Pass o =>
-    let s1 := pump mof qof s in
+    let s1 := pump mof qof pq s in
     match o with
     | Some r => if waited s1 && sent s1 && readable s1 r then complete s1 r else s1
     | None => s1
     end
   end.
 
-Definition run (mof : N -> N) (qof : N -> qargs) (s : cstate) (evs : list event) : cstate :=
-  fold_left (step mof qof) evs s.
+Definition run (mof : N -> N) (qof : N -> option qargs) (pq : N -> qargs) (s : cstate) (evs : list event) : cstate :=
+  fold_left (step mof qof pq) evs s.
 
 (* ---------- observations ---------- *)
 Definition origin (e : entry) : option N :=
@@ -179,16 +196,16 @@ Definition obs := (bool * N * N * N)%type.   (* waited, len(requests), len(respo
 Definition observe (s : cstate) : obs :=
   (waited s, N.of_nat (length (queue s)), N.of_nat (length (responses s)), N.of_nat (length (redirects s))).
 
-Fixpoint run_trace (mof : N -> N) (qof : N -> qargs) (s : cstate) (evs : list event) : cstate * list obs :=
+Fixpoint run_trace (mof : N -> N) (qof : N -> option qargs) (pq : N -> qargs) (s : cstate) (evs : list event) : cstate * list obs :=
   match evs with
   | [] => (s, [])
   | e :: r =>
-    let s' := step mof qof s e in
-    let (sf, tr) := run_trace mof qof s' r in
+    let s' := step mof qof pq s e in
+    let (sf, tr) := run_trace mof qof pq s' r in
     (sf, match e with Pass _ => observe s' :: tr | Enq _ => tr end)
   end.
 
-Record case := { c_https : bool; c_redirectable : bool; c_cmethod : N; c_methods : list (N * N); c_qargs : list (N * qargs);
+Record case := { c_https : bool; c_redirectable : bool; c_cmethod : N; c_methods : list (N * N); c_qargs : list (N * option qargs); c_pathq : list (N * qargs);
                  c_events : list event;
                  c_trace : list obs; c_entries : list entry; c_wire : list wentry }.
 
@@ -211,11 +228,11 @@ Definition wentry_eqb (x y : wentry) : bool :=
 Fixpoint mof_of (l : list (N * N)) (t : N) : N :=
   match l with [] => 0 | (k, m) :: r => if k =? t then m else mof_of r t end.
 
-Fixpoint qof_of (l : list (N * qargs)) (t : N) : qargs :=
-  match l with [] => [] | (k, q) :: r => if k =? t then q else qof_of r t end.
+Fixpoint qof_of (l : list (N * option qargs)) (t : N) : option qargs :=
+  match l with [] => None | (k, q) :: r => if k =? t then q else qof_of r t end.
 
 Definition check_case (c : case) : bool :=
-  let (s, tr) := run_trace (mof_of (c_methods c)) (qof_of (c_qargs c)) (init_m (c_https c) (c_redirectable c) (c_cmethod c)) (c_events c) in
+  let (s, tr) := run_trace (mof_of (c_methods c)) (qof_of (c_qargs c)) (qlookup (c_pathq c)) (init_m (c_https c) (c_redirectable c) (c_cmethod c)) (c_events c) in
   list_eqb obs_eqb tr (c_trace c) && list_eqb entry_eqb (responses s) (c_entries c) &&
   list_eqb wentry_eqb (wire s) (c_wire c).
 
@@ -225,11 +242,11 @@ Definition check_case (c : case) : bool :=
    7 redirect on a new connector  8 refused: no Location  9 refused: https -> http
    10 3xx delivered because not redirectable  11 reply whose server then closes *)
 Definition n_branches : nat := 12.
-Definition branch_of (mof : N -> N) (qof : N -> qargs) (s : cstate) (e : event) : list nat :=
+Definition branch_of (mof : N -> N) (qof : N -> option qargs) (pq : N -> qargs) (s : cstate) (e : event) : list nat :=
   match e with
   | Enq _ => [0%nat]
   | Pass o =>
-    let s1 := pump mof qof s in
+    let s1 := pump mof qof pq s in
     let p := if waited s then [] else match queue s with [] => [] | _ => [if cut s then 3%nat else 2%nat] end in
     match o with
     | Some r =>
@@ -251,7 +268,7 @@ Definition branch_of (mof : N -> N) (qof : N -> qargs) (s : cstate) (e : event) 
     | None => match p with [] => [1%nat] | _ => p end
     end
   end.
-Fixpoint branches (mof : N -> N) (qof : N -> qargs) (s : cstate) (evs : list event) : list nat :=
-  match evs with [] => [] | e :: r => branch_of mof qof s e ++ branches mof qof (step mof qof s e) r end.
+Fixpoint branches (mof : N -> N) (qof : N -> option qargs) (pq : N -> qargs) (s : cstate) (evs : list event) : list nat :=
+  match evs with [] => [] | e :: r => branch_of mof qof pq s e ++ branches mof qof pq (step mof qof pq s e) r end.
 Definition case_branches (c : case) : list nat :=
-  branches (mof_of (c_methods c)) (qof_of (c_qargs c)) (init_m (c_https c) (c_redirectable c) (c_cmethod c)) (c_events c).
+  branches (mof_of (c_methods c)) (qof_of (c_qargs c)) (qlookup (c_pathq c)) (init_m (c_https c) (c_redirectable c) (c_cmethod c)) (c_events c).
